@@ -1051,6 +1051,21 @@ void check(const Case &c, const vsim::RunResult &)
                            st.name.c_str(), col->number, rep->points.size(), (long long)limit));
           if (overflow_points)
             vsim::probe("metrics.overflow_series_reported");
+          // the overflow series exists only for the excess: if the whole run records fewer
+          // distinct (filtered) attribute sets on this stream than the limit admits (limit - 1
+          // regular series), no interval map and no merged map ever needs it
+          if (overflow_points)
+          {
+            std::set<std::string> distinct;
+            for (auto *m : ms)
+              distinct.insert(canon_attrs(attrs_of(m->attr_id, st.mask)));
+            if ((int64_t)distinct.size() <= limit - 1)
+              report_for(c, "C08.overflow_without_excess",
+                         fmt("reader %d stream %s collection %d: an overflow series is reported "
+                             "although only %zu distinct attribute sets were ever recorded "
+                             "(limit %lld)",
+                             r, st.name.c_str(), col->number, distinct.size(), (long long)limit));
+          }
           // ---- counters: decode every point
           if (!is_hist(kind))
           {
